@@ -137,6 +137,11 @@ func checkPerm(sysName string, req string, list []refmodel.Rec, perm []int) (str
 	for _, v := range mkVersions(sys, list, perm) {
 		lc.AddVersion(v, nil)
 	}
+	// adding a record again replaces it with itself: nothing may change
+	if vs := mkVersions(sys, list, perm); len(vs) > 0 {
+		lc.AddVersion(vs[len(vs)/2], nil)
+		lc.AddVersion(vs[0], nil)
+	}
 	if len(list) > 0 {
 		ms, err := lc.MatchingVersions(context.Background(), rk)
 		if err != nil {
